@@ -1901,9 +1901,14 @@ func (r *Raft) becomeLeader() {
 // becomeFollower transitions this node to the follower state.
 func (r *Raft) becomeFollower(leaderID string, term uint64) {
 	r.state = Follower
+	// A vote is only forgotten when the term advances. Stepping down within
+	// the current term must keep it, otherwise a second vote could be granted
+	// in the same term.
+	if term > r.currentTerm {
+		r.votedFor = ""
+	}
 	r.currentTerm = term
 	r.leaderID = leaderID
-	r.votedFor = ""
 	r.persistTermAndVote()
 	r.resetSnapshotFiles()
 
